@@ -30,6 +30,10 @@ def run(ctx: Context) -> None:
     _share(ctx, _c02, {'R02.3'}, 'R10.7', only=lambda ob: 'UGrid._make_polygons' in ob.function)
     from .common import adopt_foundations as _adopt
     _adopt(ctx, 'R10.8', ['geometry'], floor=30)
+    ctx.rule('R10.9', "a supplied table is used as given exactly when its dimensions are the expected pair: each validity test refuses under a mismatch and accepts only under agreement", floor=5)
+    with ctx.section('R10.9'):
+        from . import infra as _infra109
+        _infra109.mesh_table_dimension_tests(ctx, 'R10.9')
     ctx.assume("numpy.ma masked_invalid / masked_equal / masked_array semantics; UGRID attribute names are fixed by the specification")
 
     # ------------------------------------------------------------------ R10.1
@@ -500,6 +504,7 @@ from ..variants import V  # noqa: E402
 
 _U = 'src/emsarray/conventions/ugrid.py'
 VARIANTS = [
+    V('C10', 'well-formed-face-node-table-refused', 'src/emsarray/conventions/ugrid.py', "        expected = {self.face_dimension, self.max_node_dimension}\n        if actual != expected:", "        expected = {self.face_dimension, self.max_node_dimension}\n        if actual == expected:", 'R10.9'),
     V('C10', 'one-based-not-shifted', 'src/emsarray/conventions/ugrid.py', "        if start_index != 0:\n            values = values - start_index", "        if start_index == 0:\n            values = values - start_index", 'R10.1'),
     V('C10', 'benign-shift-unconditional', 'src/emsarray/conventions/ugrid.py', "        if start_index != 0:\n            values = values - start_index", "        values = values - start_index", None),
     V('C10', 'pair-dimension-any-size-two', _U, "        if self.has_edge_dimension:\n            for key in ['edge_node_connectivity', 'edge_face_connectivity']:\n                name = self.mesh_attributes.get(key)\n                if name in self.dataset.variables:\n                    for dimension in self.dataset.variables[name].dims:\n                        if dimension != self.edge_dimension and self.dataset.sizes[dimension] == 2:\n                            return dimension\n", "", 'R10.5'),
